@@ -540,5 +540,13 @@ def r09_7(ctx):
                      "here on a tree the loop check accepts): unbounded recursion while a tool-written sdkconfig is loaded", f.loc(c)))
 
 
+def r09_8(ctx):
+    """R09.8 the membership edges the loop check follows are all members: _finalize_choice *adds* the Symbol children of each
+    definition of a (named, multiply defined) choice to choice.syms (C05 R05.3) - overwriting the list keeps only the last
+    definition's members and a loop through an earlier member is accepted."""
+    from . import c05
+    from .common import delegate
+    delegate(ctx, c05.r05_3, lambda c: "_finalize_choice" in c)
+
 def rules():
-    return [("R09.7", r09_7, 2), ("R09.6", r09_6, 6), ("R09.1", r09_1, 14), ("R09.1b", r09_1b, 3), ("R09.2", r09_2, 6), ("R09.3", r09_3, 8), ("R09.4", r09_4, 5), ("R09.5", r09_5, 10)]
+    return [("R09.8", r09_8, 1), ("R09.7", r09_7, 2), ("R09.6", r09_6, 6), ("R09.1", r09_1, 14), ("R09.1b", r09_1b, 3), ("R09.2", r09_2, 6), ("R09.3", r09_3, 8), ("R09.4", r09_4, 5), ("R09.5", r09_5, 10)]
